@@ -54,6 +54,8 @@ Clauses(r) ==
       \cup (IF Len(o) # n \/ \A k \in 1..n : (want[k].loc = "-" \/ want[k].loc = o[k].loc) THEN {} ELSE {"location"})
       \cup (IF Len(o) # n \/ \A k \in 1..n : want[k].extra = o[k].extra THEN {} ELSE {"field"})
       \cup (IF r.badsource THEN {"source"} ELSE {})
+      \* (the reader did not return at all: an exception escaped from it)
+      \cup (IF r.raised THEN {"raised"} ELSE {})
       \* the statement's invariants on the code's own output
       \cup (IF \A k \in 1..Len(o) : o[k].cents # 0 /\ (r.cfg.sign = "abs" => o[k].cents > 0) /\ o[k].credit = (o[k].cents < 0)
             THEN {} ELSE {"INV SignLaw"})
